@@ -5,82 +5,47 @@ C44 — the WebDAV memory filesystem behaves like the native hierarchical filesy
 
 Two models over the same state (tree of names + open handles): `FS.Mem.step` (memFS / memFile as
 written) and `FS.Os.step` (what `webdav.Dir` shows on Linux).  `divClass` names, per state and
-operation, the reason why the two may differ:
-  * eleven *divergence classes* (memFS does not have the `os` semantics its contract promises),
-  * `allowedRenameOverExisting` — the exception the contract grants (renaming over an existing entry),
+operation, the reason why the two may still differ:
+  * three *divergence classes* left unrepaired (known findings): a directory opened for writing
+    (`dirWrite` — the package's own PROPPATCH opens collections `O_RDWR`), a directory opened read-only
+    with `O_CREATE`/`O_TRUNC` (`dirCreateTrunc`), `O_RDONLY|O_TRUNC` on a file (`rdonlyTrunc`,
+    unspecified by POSIX, Linux truncates);
+  * `allowedRenameOverExisting` — the exception the contract grants (renaming over an existing entry);
   * `unspecifiedSeekDir` — Seek on a directory handle (filesystem dependent, not compared).
 `agree_step` / `agree_run` (= `holds_partial`): outside these classes the two models return the same
-result and reach the same state, for every state / every history.  Each class has a negation witness
-(`diverge_*`), so the full statement is false (`full_false`).  The root / own-subtree clause:
-`rename_into_own_subtree_fails`, `rename_root_fails_partial` (+ `rename_root_full_false`),
+result and reach the same state, for every state / every history.  Each remaining class has a negation
+witness (`diverge_*`), so the unrestricted statement is still false (`full_false`).  The root /
+own-subtree clause holds in full: `step_rename_into_own_subtree_fails`, `rename_root_fails`,
 `removeAll_root_fails`.
+History: nine further classes (access mode ignored by Read/Write, Rename(x,x) of a missing name or of
+the root, zero-length Read/Write, Readdir after a partial Readdir, RemoveAll below a missing directory,
+O_APPEND/O_SYNC rejected) were repaired upstream; their witnesses are now `example`s of agreement and
+regression inputs in `corpus/C44/`.
 -/
 namespace NetVerif.Proofs.C44
 open NetVerif.Model.FS NetVerif.Proofs.Lemmas.FS
 
 inductive Class where
-  | appendSync            -- OpenFile(file, …|O_APPEND|O_SYNC): memFS ErrInvalid, native ok
   | dirWrite              -- OpenFile(dir, O_WRONLY|O_RDWR): memFS ok, native EISDIR
   | dirCreateTrunc        -- OpenFile(dir, O_CREATE|O_TRUNC, read-only): memFS ok, native EISDIR
   | rdonlyTrunc           -- OpenFile(file, O_RDONLY|O_TRUNC): native truncates, memFS does not
-  | writeRdonly           -- Write on an O_RDONLY handle: memFS writes, native EBADF
-  | writeEmpty            -- zero-length Write past the end: memFS extends the file with zeros
-  | appendHandle          -- (native only) handle opened with O_APPEND
-  | readWronly            -- Read on an O_WRONLY handle: memFS reads, native EBADF
-  | readZero              -- zero-length Read: memFS EOF / ErrInvalid, native (0, nil)
-  | readdirAfterPartial   -- Readdir(n ≤ 0) after a partial Readdir: memFS returns everything again
-  | renameSameMissing     -- Rename(x, x), x missing: memFS nil, native ENOENT
-  | renameRootSelf        -- Rename("/", "/"): memFS nil, Dir ErrInvalid
-  | removeMissingParent   -- RemoveAll below a missing directory: memFS ErrNotExist, native nil
   | allowedRenameOverExisting
   | unspecifiedSeekDir
   deriving DecidableEq, Repr
 
 def divClass (s : State) : Op → Option Class
   | .open p f =>
-    if f.append || f.sync then some .appendSync
-    else match get s.tree p with
-      | some .dir =>
-        if f.wr then some .dirWrite
-        else if f.create || f.trunc then some .dirCreateTrunc else none
-      | some (.file _) => if !f.wr && f.trunc then some .rdonlyTrunc else none
-      | none => none
-  | .write h data =>
-    match s.handles[h]? with
+    match get s.tree p with
+    | some .dir =>
+      if f.wr then some .dirWrite
+      else if f.create || f.trunc then some .dirCreateTrunc else none
+    | some (.file _) => if !f.wr && f.trunc then some .rdonlyTrunc else none
     | none => none
-    | some hd =>
-      if hd.isDir then none
-      else if hd.acc == 0 then some .writeRdonly
-      else if hd.app then some .appendHandle
-      else if data = [] then some .writeEmpty else none
-  | .read h n =>
-    match s.handles[h]? with
-    | none => none
-    | some hd =>
-      if n = 0 then some .readZero
-      else if hd.isDir then none
-      else if hd.acc == 1 then some .readWronly else none
   | .seek h _ _ =>
     match s.handles[h]? with
     | none => none
     | some hd => if hd.isDir then some .unspecifiedSeekDir else none
-  | .readdir h count =>
-    match s.handles[h]? with
-    | none => none
-    | some hd =>
-      if hd.isDir && decide (count ≤ 0) && decide (0 < hd.pos) && decide (hd.pos < hd.kids.length)
-      then some .readdirAfterPartial else none
-  | .rename a b =>
-    if a = b then
-      if a = [] then some .renameRootSelf
-      else match Mem.stat s.tree a with
-        | .error _ => some .renameSameMissing
-        | .ok _ => some .allowedRenameOverExisting
-    else if (get s.tree b).isSome then some .allowedRenameOverExisting else none
-  | .removeAll p =>
-    match Mem.walk s.tree p with
-    | .error .notExist => some .removeMissingParent
-    | _ => none
+  | .rename _ b => if (get s.tree b).isSome then some .allowedRenameOverExisting else none
   | _ => none
 
 /-! ### Tree-level agreement (error kinds collapsed) -/
@@ -102,17 +67,18 @@ theorem stat_agree (t : Tree) (p : Path) : okOf (Mem.stat t p) = okOf (Os.stat t
   | error e => cases e <;> rfl
   | ok u => rfl
 
-theorem removeAll_agree (t : Tree) (p : Path) (h : Mem.walk t p ≠ .error .notExist) :
-    (okOf (Mem.removeAll t p)).isSome = (okOf (Os.removeAll t p)).isSome := by
+theorem removeAll_agree (t : Tree) (p : Path) :
+    okOf (Mem.removeAll t p) = okOf (Os.removeAll t p) := by
   unfold Mem.removeAll Os.removeAll
   cases hw : Mem.walk t p with
   | error e =>
-    by_cases hp : p = [] <;> cases e <;> simp_all [okOf]
+    by_cases hp : p = []
+    · subst hp; simp [Mem.walk, Mem.walkFrom] at hw
+    · cases e <;> simp [hp, okOf]
   | ok u =>
     by_cases hp : p = [] <;> simp [hp, okOf]
 
 theorem openFile_agree (t : Tree) (p : Path) (f : Mem.Flags)
-    (h1 : (f.append || f.sync) = false)
     (h2 : get t p = some .dir → f.wr = false ∧ f.create = false ∧ f.trunc = false)
     (h3 : ∀ d, get t p = some (.file d) → (!f.wr && f.trunc) = false) :
     okOf (Mem.openFile t p f) = okOf (Os.openFile t p f) := by
@@ -125,9 +91,7 @@ theorem openFile_agree (t : Tree) (p : Path) (f : Mem.Flags)
     · subst hp
       have := h2 (get_nil t)
       simp [get_nil, this, okOf]
-    · have ha : f.append = false := by cases hf : f.append <;> simp_all
-      have hs : f.sync = false := by cases hf : f.sync <;> simp_all
-      simp only [hp, if_false, ha, hs, Bool.or_self, Bool.false_eq_true]
+    · simp only [hp, if_false]
       cases hg : get t p with
       | none => simp [okOf]
       | some e =>
@@ -140,43 +104,51 @@ theorem openFile_agree (t : Tree) (p : Path) (f : Mem.Flags)
           cases hc : f.create <;> cases he : f.excl <;> cases ht : f.trunc <;> cases hwr : f.wr <;>
             simp_all [okOf]
 
-theorem rename_agree (t : Tree) (a b : Path) (hab : a ≠ b) (hb : get t b = none) :
+theorem rename_agree (t : Tree) (a b : Path) (hb : get t b = none) :
     okOf (Mem.rename t a b) = okOf (Os.rename t a b) := by
   have hbne : b ≠ [] := by
     intro h; subst h; simp [get_nil] at hb
   unfold Mem.rename Os.rename
-  simp only [hab, if_false, hbne, or_false]
+  simp only [hbne, or_false]
   by_cases ha : a = []
-  · subst ha; simp [under_nil, okOf]
+  · subst ha
+    have : ([] : Path) ≠ b := fun h => hbne h.symm
+    simp [under_nil, okOf, this]
   · simp only [ha, if_false]
-    cases hu : under a b with
-    | true =>
-      simp only [if_true]
+    by_cases hab : a = b
+    · subst hab
+      simp only [ne_eq, not_true_eq_false, false_and, if_false]
       cases hwa : Mem.walk t a with
       | error e => rfl
-      | ok u =>
-        cases hga : get t a with
-        | none => rfl
-        | some ea =>
-          cases hwb : Mem.walk t b with
-          | error e => rfl
-          | ok u' => simp [hb, hu, okOf]
-    | false =>
-      simp only [Bool.false_eq_true, if_false]
-      cases hwa : Mem.walk t a with
-      | error e => rfl
-      | ok u =>
-        simp only
-        cases hwb : Mem.walk t b with
-        | error e =>
-          simp only
-          cases hga : get t a <;> rfl
-        | ok u' =>
-          simp only
+      | ok u => simp [hb, okOf]
+    · cases hu : under a b with
+      | true =>
+        simp only [ne_eq, hab, not_false_eq_true, true_and, if_true]
+        cases hwa : Mem.walk t a with
+        | error e => rfl
+        | ok u =>
           cases hga : get t a with
           | none => rfl
           | some ea =>
-            cases ea <;> simp [hb, hu, okOf]
+            cases hwb : Mem.walk t b with
+            | error e => rfl
+            | ok u' => simp [hb, hu, okOf]
+      | false =>
+        simp only [ne_eq, hab, not_false_eq_true, true_and, Bool.false_eq_true, if_false]
+        cases hwa : Mem.walk t a with
+        | error e => rfl
+        | ok u =>
+          simp only
+          cases hwb : Mem.walk t b with
+          | error e =>
+            simp only
+            cases hga : get t a <;> rfl
+          | ok u' =>
+            simp only
+            cases hga : get t a with
+            | none => rfl
+            | some ea =>
+              cases ea <;> simp [hb, hu, hab, okOf]
 
 /-! ### One step -/
 
@@ -187,48 +159,19 @@ theorem agree_step (s : State) (op : Op) (h : divClass s op = none) : Mem.step s
   | mkdir p => simp only [Mem.step, Os.step, mkdir_agree]
   | stat p => simp only [Mem.step, Os.step, stat_agree]
   | fstat h' => rfl
+  | write k data => rfl
+  | read k n => rfl
+  | readdir k count => rfl
+  | removeAll p => simp only [Mem.step, Os.step, removeAll_agree]
   | «open» p f =>
     simp only [divClass] at h
-    have h1 : (f.append || f.sync) = false := by
-      cases hf : (f.append || f.sync) <;> simp_all
-    simp only [h1, Bool.false_eq_true, if_false] at h
     have h2 : get s.tree p = some .dir → f.wr = false ∧ f.create = false ∧ f.trunc = false := by
       intro hg; rw [hg] at h
       cases hwr : f.wr <;> cases hc : f.create <;> cases ht : f.trunc <;> simp_all
     have h3 : ∀ d, get s.tree p = some (.file d) → (!f.wr && f.trunc) = false := by
       intro d hg; rw [hg] at h
       cases hx : (!f.wr && f.trunc) <;> simp_all
-    simp only [Mem.step, Os.step, openFile_agree s.tree p f h1 h2 h3]
-  | write k data =>
-    simp only [divClass] at h
-    simp only [Mem.step, Os.step]
-    cases hk : s.handles[k]? with
-    | none => rfl
-    | some hd =>
-      simp only [hk] at h ⊢
-      cases hdir : hd.isDir with
-      | true => simp
-      | false =>
-        simp only [hdir, Bool.false_eq_true, if_false] at h ⊢
-        have hacc : (hd.acc == 0) = false := by cases hx : (hd.acc == 0) <;> simp_all
-        have happ : hd.app = false := by cases hx : hd.app <;> simp_all
-        have hdata : data ≠ [] := by intro hx; simp_all
-        simp [hacc, happ, Os.writeAt, hdata]
-  | read k n =>
-    simp only [divClass] at h
-    simp only [Mem.step, Os.step]
-    cases hk : s.handles[k]? with
-    | none => rfl
-    | some hd =>
-      simp only [hk] at h ⊢
-      have hn : n ≠ 0 := by intro hx; simp_all
-      simp only [hn, if_false] at h ⊢
-      cases hdir : hd.isDir with
-      | true => simp
-      | false =>
-        simp only [hdir, Bool.false_eq_true, if_false] at h ⊢
-        have hacc : (hd.acc == 1) = false := by cases hx : (hd.acc == 1) <;> simp_all
-        simp [hacc]
+    simp only [Mem.step, Os.step, openFile_agree s.tree p f h2 h3]
   | seek k off wh =>
     simp only [divClass] at h
     simp only [Mem.step, Os.step]
@@ -238,51 +181,11 @@ theorem agree_step (s : State) (op : Op) (h : divClass s op = none) : Mem.step s
       simp only [hk] at h ⊢
       have hdir : hd.isDir = false := by cases hx : hd.isDir <;> simp_all
       simp [hdir]
-  | readdir k count =>
-    simp only [divClass] at h
-    simp only [Mem.step, Os.step]
-    cases hk : s.handles[k]? with
-    | none => rfl
-    | some hd =>
-      simp only [hk] at h ⊢
-      cases hdir : hd.isDir with
-      | false => simp
-      | true =>
-        simp only [hdir, Bool.not_true, Bool.false_eq_true, if_false, Bool.true_and] at h ⊢
-        by_cases hge : hd.pos ≥ hd.kids.length
-        · simp [hge]
-        · simp only [hge, if_false]
-          by_cases hc : count > 0
-          · simp [hc]
-          · simp only [hc, if_false]
-            have hpos : hd.pos = 0 := by
-              have : ¬ (0 < hd.pos) := by
-                intro hp
-                have h1 : count ≤ 0 := by omega
-                have h2 : hd.pos < hd.kids.length := by omega
-                simp [h1, hp, h2] at h
-              omega
-            simp [hpos]
   | rename a b =>
     simp only [divClass] at h
-    have hab : a ≠ b := by
-      intro hx; subst hx
-      simp only [if_true] at h
-      split at h
-      · cases h
-      · split at h <;> cases h
-    simp only [hab, if_false] at h
     have hb : get s.tree b = none := by
       cases hg : get s.tree b <;> simp_all
-    simp only [Mem.step, Os.step, hab, if_false, rename_agree s.tree a b hab hb]
-  | removeAll p =>
-    simp only [divClass] at h
-    have hw : Mem.walk s.tree p ≠ .error .notExist := by
-      intro hx; rw [hx] at h; cases h
-    have := removeAll_agree s.tree p hw
-    simp only [Mem.step, Os.step]
-    cases h1 : okOf (Mem.removeAll s.tree p) <;> cases h2 : okOf (Os.removeAll s.tree p) <;> simp_all
-
+    simp only [Mem.step, Os.step, rename_agree s.tree a b hb]
 
 /-! ### Histories -/
 
@@ -333,34 +236,45 @@ def after (ops : List Op) : State := (runWith Mem.step {} ops).1
 abbrev Diverges (ops : List Op) (op : Op) (c : Class) : Prop :=
   cleanRun {} ops = true ∧ divClass (after ops) op = some c ∧ Mem.step (after ops) op ≠ Os.step (after ops) op
 
-theorem diverge_appendSync : Diverges [] (.open nA (fl 2 true true false false false)) .appendSync := by
-  decide
-theorem diverge_sync : Diverges [] (.open nA (fl 1 false true false true false)) .appendSync := by
-  decide
 theorem diverge_dirWrite : Diverges [.mkdir nA] (.open nA rw_) .dirWrite := by decide
 theorem diverge_dirCreateTrunc : Diverges [.mkdir nA] (.open nA (fl 0 false true false false false)) .dirCreateTrunc := by
   decide
 theorem diverge_rdonlyTrunc :
     Diverges [.open nA rwCreate, .write 0 [1, 2]] (.open nA (fl 0 false false false false true)) .rdonlyTrunc := by
   decide
-/-- The data-losing one: `memFile.Write` through an `O_RDONLY` handle succeeds and changes the file. -/
-theorem diverge_writeRdonly :
-    Diverges [.open nA rwCreate, .write 0 [1, 2], .open nA ro] (.write 1 [9]) .writeRdonly := by decide
-theorem writeRdonly_modifies :
-    (Mem.step (after [.open nA rwCreate, .write 0 [1, 2], .open nA ro]) (.write 1 [9])).1.tree = [(nA, .file [9, 2])] := by
+
+/-! Former divergences, repaired upstream: the two filesystems now agree on the old witnesses. -/
+
+/-- The step `op` after history `ops` lies outside every class and both filesystems agree on it. -/
+abbrev Agrees (ops : List Op) (op : Op) : Prop :=
+  cleanRun {} ops = true ∧ divClass (after ops) op = none ∧ Mem.step (after ops) op = Os.step (after ops) op
+
+/-- `O_APPEND`, `O_SYNC`: accepted. -/
+example : Agrees [] (.open nA (fl 2 true true false false false)) := by decide
+example : Agrees [] (.open nA (fl 1 false true false true false)) := by decide
+/-- Appending writes go to the end whatever the offset. -/
+example : (runWith Mem.step {} [.open nA rwCreate, .write 0 [1, 2], .open nA (fl 1 true false false false false),
+    .write 1 [3], .seek 0 0 0, .read 0 9]).2 =
+    [.opened 0 false, .wrote 2, .opened 1 false, .wrote 1, .pos 0, .data [1, 2, 3]] := by decide
+/-- Write through an `O_RDONLY` handle: refused, file unchanged. -/
+example : Agrees [.open nA rwCreate, .write 0 [1, 2], .open nA ro] (.write 1 [9]) := by decide
+example : Mem.step (after [.open nA rwCreate, .write 0 [1, 2], .open nA ro]) (.write 1 [9]) =
+    (after [.open nA rwCreate, .write 0 [1, 2], .open nA ro], .err) := by decide
+/-- Zero-length Write past the end: nothing happens. -/
+example : Agrees [.open nA rwCreate, .seek 0 5 0] (.write 0 []) := by decide
+/-- Read through an `O_WRONLY` handle: refused. -/
+example : Agrees [.open nA rwCreate, .write 0 [1], .open nA (fl 1 false false false false false)] (.read 1 1) := by
   decide
-theorem diverge_writeEmpty :
-    Diverges [.open nA rwCreate, .seek 0 5 0] (.write 0 []) .writeEmpty := by decide
-theorem diverge_readWronly :
-    Diverges [.open nA rwCreate, .write 0 [1], .open nA (fl 1 false false false false false)] (.read 1 1) .readWronly := by
-  decide
-theorem diverge_readZero : Diverges [.open nA rwCreate] (.read 0 0) .readZero := by decide
-theorem diverge_readdirAfterPartial :
-    Diverges [.mkdir nA, .mkdir nB, .open [] ro, .readdir 0 1] (.readdir 0 0) .readdirAfterPartial := by
-  decide
-theorem diverge_renameSameMissing : Diverges [] (.rename nA nA) .renameSameMissing := by decide
-theorem diverge_renameRootSelf : Diverges [] (.rename [] []) .renameRootSelf := by decide
-theorem diverge_removeMissingParent : Diverges [] (.removeAll [[97], [98]]) .removeMissingParent := by decide
+/-- Zero-length Read: `(0, nil)`. -/
+example : Agrees [.open nA rwCreate] (.read 0 0) := by decide
+/-- Readdir(0) after a partial Readdir: the remaining entries. -/
+example : Agrees [.mkdir nA, .mkdir nB, .open [] ro, .readdir 0 1] (.readdir 0 0) := by decide
+/-- Rename(x, x) of a missing name, of the root: errors. -/
+example : Agrees [] (.rename nA nA) := by decide
+example : Mem.step {} (.rename [] []) = ({}, .err) ∧ Os.step {} (.rename [] []) = ({}, .err) := by decide
+example : Mem.step {} (.rename nA nA) = ({}, .err) := by decide
+/-- RemoveAll below a missing directory: nil. -/
+example : Agrees [] (.removeAll [[97], [98]]) := by decide
 
 /-- The contract's exception is a real difference too (file over directory), but an allowed one. -/
 theorem allowed_exception_differs :
@@ -370,7 +284,7 @@ theorem allowed_exception_differs :
 
 theorem full_false : ¬ FullStatement := by
   intro h
-  have := h [.rename nA nA] (by decide)
+  have := h [.mkdir nA, .open nA rw_] (by decide)
   revert this
   decide
 
@@ -438,7 +352,7 @@ theorem os_rename_into_own_subtree_fails (t : Tree) (a b : Path) (hne : a ≠ b)
 
 theorem step_rename_into_own_subtree_fails (s : State) (a b : Path) (hne : a ≠ b) (hu : under a b = true) :
     Mem.step s (.rename a b) = (s, .err) ∧ Os.step s (.rename a b) = (s, .err) := by
-  simp [Mem.step, Os.step, hne, mem_rename_into_own_subtree_fails _ a b hne hu,
+  simp [Mem.step, Os.step, mem_rename_into_own_subtree_fails _ a b hne hu,
     os_rename_into_own_subtree_fails _ a b hne hu]
 
 /-- Removing the root fails on both. -/
@@ -446,38 +360,28 @@ theorem removeAll_root_fails (s : State) :
     Mem.step s (.removeAll []) = (s, .err) ∧ Os.step s (.removeAll []) = (s, .err) := by
   simp [Mem.step, Os.step, Mem.removeAll, Os.removeAll, Mem.walk, Mem.walkFrom, okOf]
 
-/-- "Renaming the root always fails", as a statement about `memFS`. -/
-def RenameRootStatement : Prop :=
-  ∀ (s : State) (a b : Path), a = [] ∨ b = [] → Mem.step s (.rename a b) = (s, .err)
-
-/-- False as it stands: `Rename("/", "/")` returns nil. -/
-theorem rename_root_full_false : ¬ RenameRootStatement := by
-  intro h
-  have := h {} [] [] (Or.inl rfl)
-  revert this
-  decide
-
-/-- It holds whenever the two names differ (and always through `Dir`). -/
-theorem rename_root_fails_partial (s : State) (a b : Path) (hr : a = [] ∨ b = []) (hne : a ≠ b) :
+/-- Renaming from or to the root always fails (also `Rename("/", "/")`, which used to return nil). -/
+theorem rename_root_fails (s : State) (a b : Path) (hr : a = [] ∨ b = []) :
     Mem.step s (.rename a b) = (s, .err) := by
   have : okOf (Mem.rename s.tree a b) = none := by
     unfold Mem.rename
-    simp only [hne, if_false]
     rcases hr with ha | hb
-    · subst ha; simp [under_nil, okOf]
+    · subst ha
+      by_cases hb : ([] : Path) = b
+      · subst hb; simp [Mem.walk, Mem.walkFrom, okOf]
+      · simp [hb, under_nil, okOf]
     · subst hb
-      have hu : under a [] = false := by
-        cases a with
-        | nil => exact absurd rfl hne
-        | cons x xs => simp [under]
-      simp only [hu, Bool.false_eq_true, if_false]
-      cases hwa : Mem.walk s.tree a with
-      | error e => rfl
-      | ok u =>
-        by_cases ha : a = []
-        · exact absurd ha hne
-        · simp [ha, Mem.walk, Mem.walkFrom, okOf]
-  simp [Mem.step, hne, this]
+      by_cases ha : a = []
+      · subst ha; simp [Mem.walk, Mem.walkFrom, okOf]
+      · have hu : under a [] = false := by
+          cases a with
+          | nil => exact absurd rfl ha
+          | cons x xs => simp [under]
+        simp only [hu, Bool.false_eq_true, and_false, if_false]
+        cases hwa : Mem.walk s.tree a with
+        | error e => rfl
+        | ok u => simp [ha, Mem.walk, Mem.walkFrom, okOf]
+  simp [Mem.step, this]
 
 theorem os_rename_root_fails (s : State) (a b : Path) (hr : a = [] ∨ b = []) :
     Os.step s (.rename a b) = (s, .err) := by
